@@ -3,8 +3,11 @@
 // (assume-guarantee between units; `//@@ assume` emits the real signature + that header as external_body).
 #[verifier::external_body]
 pub struct RegexCache { _p: () }
-#[verifier::external_body]
-pub struct InputContext { _p: () }
+//@@ item src/reader.rs :: struct Location
+//@@ derives Clone
+//@@ enditem
+//@@ item src/processor.rs :: struct InputContext
+//@@ enditem
 #[verifier::external_body]
 pub struct Context { _p: () }
 
@@ -91,6 +94,12 @@ impl Context {
 //@@ header-from specs/ctx/new_with_no_context.spec
 //@@ header-from specs/ctx/new_with_no_context.det.spec
 //@@ endfn
+//@@ fn ctxo.new_with_input = src/processor.rs :: impl Context :: fn new_with_input
+//@@ ret r
+//@@ assume
+//@@ header-from specs/ctx/new_with_input.spec
+//@@ header-from specs/ctx/new_with_input.det.spec
+//@@ endfn
 //@@ fn ctxo.input_context = src/processor.rs :: impl Context :: fn input_context
 //@@ ret r
 //@@ assume
@@ -107,4 +116,5 @@ pub uninterp spec fn ctx_with_variables(c: Context, vars: Map<String, JsonValue>
 pub uninterp spec fn ctx_with_definition(c: Context, name: String, d: Rc<dyn Get>) -> Context;
 pub uninterp spec fn ctx_with_definitions(c: Context, defs: Map<String, Rc<dyn Get>>) -> Context;
 pub uninterp spec fn ctx_of_value(v: JsonValue) -> Context;
+pub uninterp spec fn ctx_new(v: JsonValue, start: Location, end: Location, file_index: u64, index: u64) -> Context;
 pub uninterp spec fn ctx_build(c: Context) -> JsonValue;
